@@ -256,4 +256,20 @@ CHECKS = {
         "floors": {"claim-failure-injected-and-hit": 0.05, "ordinal-created-again-with-claims": 0.05},
         "assumptions": COMMON_ASSUMPTIONS,
     },
+    "C08": {
+        "level": "exploration",
+        "rule": "case = 1-4 pod templates (a third of them generated reflectively over the whole PodTemplateSpec schema with int32-range integers, "
+                "non-canonical quantities, nil-vs-empty collections; the rest minimal) and <= 20 ops over {reconcile, switch to template i (fresh or "
+                "an earlier one = rollback), edit replicas / delete-slots / pause flag / labels+annotations / history limit, kubelet progress, plant a "
+                "ControllerRevision under the very name the next reconcile would create (learnt from a dry run on a clone) with different or with "
+                "identical data}. Oracle after each successful unpaused reconcile: status.updateRevision names a stored revision whose data - decoded "
+                "by the harness - equals the set's template and whose application (ApplyRevision) reproduces it; an unchanged template creates and "
+                "rewrites no revision and keeps the update revision's name whatever else was edited; returning to a recorded template re-uses that "
+                "revision, renumbered above all others, without a create; a planted different-data object is never overwritten nor adopted as update "
+                "revision. Non-trivial = history with a rollback, a non-template edit between two reconciles, or a planted collision; distinct = case",
+        "legs": [{"test": "TestC08", "quick": {"checks": 480, "shards": 8}, "thorough": {"checks": 64000, "shards": 16}}],
+        "floors": {"rollback": 0.03, "non-template-edit-between-reconciles": 0.1, "planted-name-collision": 0.1},
+        "timeout": {"quick": 1500, "thorough": 14400},
+        "assumptions": ["template integers stay within int32 (getPatch goes through float64 as upstream does; only two pod fields admit larger values)"] + COMMON_ASSUMPTIONS,
+    },
 }
